@@ -679,6 +679,29 @@ def check(run):
         run.instance("B5", fn.where, "exponents of the returned centre / radius not determined - NOT decided", True, nontrivial=False)
         run.assume("minimum_nsphere: length exponents of the returned values not determined")
     run.assume("the direction / centre searches (qhull, Voronoi, least squares, optimiser), convexity and watertightness of qhull output, minimality and bounding_cylinder are not decided")
+    # ------------------------------------------------------------------ B6 bounding routines never write through what they are given
+    run.rule("B6", "the bounding / hull routines (nsphere.py, bounds.py, convex.py) are read-only on their arguments: no in-place write reaches an array of the "
+                   "object they measure - in particular not the vertices of its memoised convex hull, which hull_points hands out without a copy")
+    from ..effects import Effects
+    ef6 = Effects(ix)
+    n6 = 0
+    for f_ in ix.all_functions:
+        if f_.module.name not in ("trimesh.nsphere", "trimesh.bounds", "trimesh.convex") or f_.parent is not None or f_.cls is not None or not f_.params:
+            continue
+        s_ = ef6.summary(f_, None)
+        n6 += 1
+        bad = []
+        for (r_, p_, k_) in sorted(s_.writes):
+            if r_ not in f_.params or k_ == "memo" or "_cache" in p_:
+                continue
+            bad.append((r_, ".".join(p_), k_, s_.sites.get((r_, p_, k_), (0, ""))[1]))
+        ok = not bad
+        run.instance("B6", f_.where, f"{f_.qualname}({', '.join(f_.params[:3])}): " + ("no write through an argument" if ok else f"writes {bad[:2]}"), ok)
+        for r_, path_, kind_, site_ in bad[:3]:
+            run.violation("B6", f_.where, f"`{f_.qualname}` changes what it was asked to measure: {kind_} write of `{r_}{'.' + path_ if path_ else ''}` (at `{site_}`) - when that is the "
+                                          f"vertex array of the object's cached convex hull, every bounding volume computed afterwards is built on the shifted / rescaled points",
+                          key=key_of("C16-B6", f_.qualname, r_, path_))
+    run.floor("bounding routines analysed for write effects", n6, 10)
     return {
         "explanation": "Canonical-form structural rules plus one polynomial identity and one finite enumeration: whatever candidate the numerical search picks, the reported "
         "rectangle / box / sphere is measured on the points with that same candidate and centred on their min / max, so containment holds by construction; the axis "
